@@ -15,7 +15,8 @@ RULE = ('random finite MPS with non-uniform bond dimensions (L 2-6, all site kin
         'and compared with the harness contraction of the MPS; infinite MPS with NON-uniform forms undergo enlarge / roll / '
         'spatial inversion and window density matrices are compared up to relabelling. non-trivial = entangled state and >=2 '
         'steps; distinct = (site kind, L, op sequence)'
-        ' Also: get_grouped_mps, extract_enlarged_segment back to the whole chain, compression of infinite states (overlap per unit cell vs reported error), apply_local_term with i_offset and odd fermionic terms.')
+        ' Also: get_grouped_mps, extract_enlarged_segment back to the whole chain, compression of infinite states (overlap per unit cell vs reported error), apply_local_term with i_offset and odd fermionic terms.'
+        ' Round 5: permute_sites with swap_op None / autoInv; group_split with a truncating trunc_par (returned error vs infidelity).')
 ASSUMPTIONS = ['C07 (the harness contraction denotes the MPS state)', 'fermionic swap sign = (-1)^(n_i n_j) from the JW parities']
 ANCHORS = {'tenpy/networks/mps.py': ['*']}
 REQUIRED_COUNTERS = {'op.get_grouped_mps': 20, 'op.extract_enlarged_segment': 20, 'op.apply_local_op': 20, 'op.apply_local_term': 10, 'op.swap_sites': 10, 'op.permute_sites': 5, 'op.add': 10,
